@@ -63,6 +63,11 @@ func (s *StateDBWrapper) Finish() {
 		acct := s.acctHandler.FindOrNewAccount(addr[:], s.exec)
 		acct.SetBalance(amt)
 		acct.SetNonce(nonce)
+		// a contract created by another contract (CREATE/CREATE2) must be marked as a contract account too,
+		// otherwise a plain transfer to it is not executed by the EVM
+		if acct.Code == nil && s.StateDB.GetCodeSize(addr) > 0 {
+			acct.SetCode(s.StateDB.GetCodeHash(addr).Bytes())
+		}
 
 		_ = s.acctHandler.SetAccountCommittable(acct, s.exec)
 		verifhook.EvmOp("WriteBack", addr, nonce, amt)
